@@ -46,8 +46,10 @@ static void warmup(cfg_t c) {
  *   f decode_cleanup
  *   R reconstruct a missing fragment      r reconstruct with an out-of-range destination
  *   N fragments_needed                    M get_fragment_metadata + is_invalid_fragment + verify_stripe
+ * followed by <pat>: the set of fragments withheld by S, U and R (bit mask; between 1 and tolerance
+ * fragments, a data fragment among them); R rebuilds the lowest withheld fragment.
  */
-typedef struct { cfg_t c; int n; char calls[320]; } ledger_t;
+typedef struct { cfg_t c; int n; char calls[320]; uint64_t pat; } ledger_t;
 
 static void run_ledger(void *va, FILE *out) {
     ledger_t *L = va;
@@ -77,7 +79,8 @@ static void run_ledger(void *va, FILE *out) {
                 mt_off();   /* the harness's own scratch buffers are not the library's */
                 for (int i = 0; i < c.k + c.m; i++) {
                     char *f = i < c.k ? ed[i] : ep[i - c.k];
-                    if ((call == 'S' || call == 'U' || call == 'V') && i == 0) continue;
+                    if ((call == 'S' || call == 'U') && ((L->pat >> i) & 1)) continue;
+                    if (call == 'V' && i == 0) continue;
                     if (call == 'I' && i >= c.k - 1 && c.k > 0) continue;
                     if (call == 'U' || call == 'B' || (call == 'V' && i == 1)) {
                         unsigned char *b = NULL; if (posix_memalign((void **)&b, 16, flen + 32)) abort();
@@ -99,9 +102,9 @@ static void run_ledger(void *va, FILE *out) {
         case 'R': case 'r':
             if (have_enc) {
                 int n = 0;
-                for (int i = 1; i < c.k + c.m; i++) work[n++] = i < c.k ? ed[i] : ep[i - c.k];
+                for (int i = 0; i < c.k + c.m; i++) if (!((L->pat >> i) & 1)) work[n++] = i < c.k ? ed[i] : ep[i - c.k];
                 mt_off(); char *of = malloc(flen); mt_on();
-                rc = liberasurecode_reconstruct_fragment(desc, work, n, flen, call == 'R' ? 0 : c.k + c.m, of);
+                rc = liberasurecode_reconstruct_fragment(desc, work, n, flen, call == 'R' ? __builtin_ctzll(L->pat) : c.k + c.m, of);
                 mt_off(); free(of); mt_on();
             }
             break;
@@ -119,6 +122,19 @@ static void run_ledger(void *va, FILE *out) {
     fprintf(out, "%s|%ld", acc, mt_blocks());
     if (mt_double_frees()) fprintf(out, " DOUBLE-FREE=%ld", mt_double_frees());
     LEAK_CHECK(out);
+}
+
+static uint64_t ledger_pattern(cfg_t c) {
+    int tol = cfg_tolerance(c), e = 1 + (int)rnd(tol), n = c.k + c.m;
+    uint64_t pat = 1ull << rnd(c.k); int have = 1;
+    while (have < e) { int i = (int)rnd(n); if (!((pat >> i) & 1)) { pat |= 1ull << i; have++; } }
+    return pat;
+}
+
+static void ledger_emit(ledger_t *L) {
+    op_begin("ledger %d %d %d %d %s %llu", L->c.be, L->c.k, L->c.m, L->c.hd, L->calls, (unsigned long long)L->pat); op_sep();
+    guarded(run_ledger, L);
+    stat_add("ledger.histories", 1); stat_add("ledger.calls", L->n);
 }
 
 void suite_ledger(int tier) {
@@ -141,9 +157,32 @@ void suite_ledger(int tier) {
             L.calls[i] = ch;
         }
         L.calls[L.n] = 0;
-        op_begin("ledger %d %d %d %d %s", L.c.be, L.c.k, L.c.m, L.c.hd, L.calls); op_sep();
-        guarded(run_ledger, &L);
-        stat_add("ledger.histories", 1); stat_add("ledger.calls", L.n);
+        L.pat = rnd(3) ? ledger_pattern(L.c) : 1;
+        ledger_emit(&L);
+    }
+    /* every way of losing up to hd-1 fragments of a flat XOR code takes its own decoder path
+       (one / two / three data, with parities, the synthetic-parity fall-back): all patterns of the
+       small codes, all data triples (and a sample of the rest) of the large ones */
+    for (int si = 0; si < n_xor_shapes; si++) {
+        cfg_t c = { 3, xor_shapes[si][0], xor_shapes[si][1], xor_shapes[si][2], 2 };
+        int n = c.k + c.m, tol = c.hd - 1;
+        int full = (c.k == 10 && c.m == 6 && c.hd == 4) || (c.k == 5 && c.m == 5) || (c.k == 6 && c.m == 6 && c.hd == 4) || tier;
+        if (!full && rnd(4)) continue;
+        for (uint64_t pat = 1; pat < (1ull << n); pat++) {
+            int e = __builtin_popcountll(pat);
+            if (e > tol || !(pat & ((1ull << c.k) - 1))) continue;
+            int data_only = !(pat >> c.k);
+            if (!(full && (data_only || tier)) && rnd(full ? 6 : 40)) continue;
+            ledger_t L; L.c = c; L.pat = pat; strcpy(L.calls, "CESfUfRScfD"); L.n = (int)strlen(L.calls);
+            ledger_emit(&L);
+            stat_add("ledger.xor_patterns", 1);
+        }
+    }
+    /* rs_vand: erasure sets of every size */
+    for (int t = 0; t < (tier ? 200 : 30); t++) {
+        cfg_t c = { 6, 1 + (int)rnd(10), 1 + (int)rnd(5), 0, 2 }; c.hd = c.m;
+        ledger_t L; L.c = c; L.pat = ledger_pattern(c); strcpy(L.calls, "CESfUfRScfD"); L.n = (int)strlen(L.calls);
+        ledger_emit(&L);
     }
 }
 
